@@ -19,6 +19,8 @@ def classify(v):
     d = (v.get('detail') or '') + ' ' + (v.get('out') or '')
     if v.get('kind') in ('UnstableMinification', 'tree-differs', 'output-unparseable') and v.get('with_tuple'):
         return 'C02.with.parenthesised_tuple'
+    if v.get('kind') in ('UnstableMinification', 'tree-differs', 'output-unparseable') and v.get('py2_exec'):
+        return 'C02.py2.exec_operand_parentheses'
     return None
 
 
@@ -125,6 +127,7 @@ def main(tier, seed):
                 if src is None:
                     src = base64.b64decode(c['src_b64']).decode('utf-8', 'replace')
                 v['with_tuple'] = _has_with_tuple(src)
+                v['py2_exec'] = version.startswith('2.') and bool(__import__('re').search(r'(^|\n)\s*exec\b', src))
                 out['violations'].append({
                     'mech': classify(v),
                     'detail': '%s [%s] %s: %s' % (version, v.get('mode'), v.get('kind'), v.get('detail')),
